@@ -35,6 +35,9 @@ fn main() {
         steel::verif::GC_EVERY.store(n.parse().unwrap_or(0), Ordering::SeqCst);
     }
     let check_use_free = std::env::var("VERIF_USE_FREE_CHECK").is_ok();
+    // heap accounting sensor (Heap.tla C19a at every allocation that follows a collection / growth / compaction)
+    let check_acct = std::env::var("VERIF_ACCT_CHECK").is_ok();
+    if check_acct { steel::verif::ACCT_ON.store(true, Ordering::SeqCst); }
     // VM-level event trace of every case (spec/Trace_Vm.tla), see verif_harness::vmrec
     let vmtrace = vmrec::init_from_env();
     let text = std::fs::read_to_string(cases_path).expect("cases file");
@@ -82,6 +85,8 @@ fn main() {
         let mut poisoned = false;
         let mut unplanned = false;
         let use_free0 = steel::verif::USE_FREE.load(Ordering::SeqCst);
+        let acct0 = steel::verif::ACCT_MISMATCH.load(Ordering::SeqCst);
+        let acct_checks0 = steel::verif::ACCT_CHECKS.load(Ordering::SeqCst);
         let mut host = HostState { uniq: uniq.clone(), ..Default::default() };
         if vmtrace { vmrec::begin_case(&case.id, e); }
         for (si, st) in case.steps.iter().enumerate() {
@@ -112,9 +117,16 @@ fn main() {
             why = format!("use-free: {use_free} program accesses to heap slots the collector had reclaimed");
             bad_step = gots.len().saturating_sub(1);
         }
+        let acct = steel::verif::ACCT_MISMATCH.load(Ordering::SeqCst) - acct0;
+        if check_acct && acct > 0 && why.is_empty() {
+            why = format!("heap accounting: {acct} times the accounted number of free slots differed from the slots actually free when a slot was handed out after a collection (first: {} slots, accounted free {}, actually free {})",
+                          steel::verif::ACCT_FIRST[0].load(Ordering::SeqCst), steel::verif::ACCT_FIRST[1].load(Ordering::SeqCst), steel::verif::ACCT_FIRST[2].load(Ordering::SeqCst));
+            bad_step = gots.len().saturating_sub(1);
+        }
         // "|unplanned-recycle": the engine's global-slot recycler ran during a step that did not ask
         // for it (policy event caused by the accumulated history of a shared engine)
         let vtag = if unplanned { format!("{}|unplanned-recycle", case.tag) } else { case.tag.clone() };
+        let vtag = if check_acct { format!("{}|acct-checks={}", vtag, steel::verif::ACCT_CHECKS.load(Ordering::SeqCst) - acct_checks0) } else { vtag };
         let v = Verdict { id: case.id.clone(), tag: vtag, pass: why.is_empty(), why, step: bad_step, got: gots };
         let mut o = out.lock().unwrap();
         writeln!(o, "{}", serde_json::to_string(&v).unwrap()).unwrap();
